@@ -70,7 +70,11 @@ func runStop(rec *vkit.Recorder, c *stopCase) []vkit.Violation {
 			failing[f%n] = true
 		}
 	}
-	const reason = "scraping stopped by the administrator (verif)"
+	// what an operator types: the reason may contain a percent sign
+	reason := "scraping stopped by the administrator (verif)"
+	if len(c.Failing)%2 == 1 {
+		reason = "disk 95% full on the remote storage, scraping stopped (verif)"
+	}
 	w.Do(Action{Kind: "stop", Match: reason})
 	for i := range failing {
 		w.Shards[i].PostFail = 100
